@@ -3,11 +3,12 @@
 Kernel: Output.plot and _plot_core of the standard line plot, obsfcst, qq,
 sort, hist, freq (harness `diagrams`) and qq with -x/-q, scatter, error, change,
 cond, marginal, reliability, discrimination, roc, droc0, pithist, timeseries (`diagrams2.*`), invreliability, spreadskill,
-against, bsdecomp, igncontrib, economicvalue, murphy, droc (`diagrams3.*`, harness/c16c.py), on a real Data object with symbolic cells.
+against, bsdecomp, igncontrib, economicvalue, murphy, droc (`diagrams3.*`, harness/c16c.py), meteo, autocov and (thorough tier) autocorr
+(`diagrams4.*`, harness/c16d.py), on a real Data object with symbolic cells.
 Boundary: matplotlib.pyplot is a recording stub -- the claim concerns the x / y
 arrays handed to plot()/bar(), one series per input in command-line order, and
 that every valid case falls in exactly one bin of a binned diagram.
-NOT decided: performance, taylor, fss, autocorr/autocov, meteo, maps, rank and impact views, and whether
+NOT decided: performance, taylor, fss, the smoothing lines of autocorr/autocov, maps, rank and impact views, and whether
 matplotlib draws what it is given."""
 import numpy as np
 
@@ -21,7 +22,8 @@ BOUNDS = {
     "quick": {"dataset": "2 inputs, 2 times x 1 lead time x 2 locations, real cells; three cells of the first input may be NaN", "diagrams": "standard (mae along location/time/no), obsfcst on the full shape; qq, sort on 3 x 1 x 1; hist, freq on 2 x 1 x 1; "
                           "diagrams2: qq with -x/-q, scatter, error, marginal on 2 x 1 x 2, change on 3 x 1 x 1, cond on 2 x 1 x 1 (second input concrete, edges 0,1,2), timeseries on 2 x 2 x 2",
               "bins": "3 symbolic increasing thresholds (within=)",
-              "diagrams3": "first input symbolic (2-3 cases; forecast probabilities inside a window holding 2-3 edges of the diagram's fixed grid), second input concrete"},
+              "diagrams3": "first input symbolic (2-3 cases; forecast probabilities inside a window holding 2-3 edges of the diagram's fixed grid), second input concrete",
+              "diagrams4": "meteo: one input 2 x 2 x 1 with 3 quantile levels stored in non-ascending order, 5 cells may be NaN; autocov along time / lead time / location: 2 entries x 3 cases, first input symbolic (2 cells may be NaN), second concrete"},
     "thorough": {"dataset": "2 inputs, 2 x 2 x 2", "diagrams": "same", "bins": "same"},
 }
 ASSUMPTIONS = ["draw calls are observed at the pyplot boundary (recording stub)", "thresholds are strictly increasing"]
@@ -668,8 +670,8 @@ def h_bin_helper(N):
 
 
 def harnesses(tier):
-    from harness import c16c
+    from harness import c16c, c16d
     thorough = tier == "thorough"
     return [Harness("diagrams", h_diagrams(2, 2 if thorough else 1, 2), "draw-call arguments of 6 diagrams vs their definitions"),
             ] + [Harness("diagrams2." + w, h_diagrams2(w, thorough), "%s diagram vs its definition" % w) for w in DIAGRAMS2 + (DIAGRAMS2_DEV if __import__("os").environ.get("VERIF_DEV") else [])] + [
-            Harness("bin_helper", h_bin_helper(3 if thorough else 2), "util.bin: the binning helper of the binned diagrams")] + c16c.harnesses(tier)
+            Harness("bin_helper", h_bin_helper(3 if thorough else 2), "util.bin: the binning helper of the binned diagrams")] + c16c.harnesses(tier) + c16d.harnesses(tier)
